@@ -5,7 +5,7 @@ use super::{
 use crate::{
     html::attribute::{any_attribute::AnyAttribute, Attribute},
     hydration::Cursor,
-    renderer::Rndr,
+    renderer::{CastFrom, Rndr},
     ssr::StreamBuilder,
 };
 use either_of::Either;
@@ -606,12 +606,20 @@ where
         cursor: &Cursor,
         position: &PositionState,
     ) -> Self::State {
+        // the element the items live in, as for a keyed list: while nothing of that element has
+        // been walked (an empty list, or the first item not yet hydrated) the cursor still stands
+        // on the element itself, afterwards on one of its children
+        let current = cursor.current();
+        let parent = if position.get() == Position::FirstChild {
+            crate::renderer::types::Element::cast_from(current)
+        } else {
+            current.parent_element()
+        };
         let states = self
             .0
             .into_iter()
             .map(|child| child.hydrate::<FROM_SERVER>(cursor, position))
             .collect();
-        let parent = cursor.current().parent_element();
         Self::State { states, parent }
     }
 
